@@ -57,7 +57,7 @@ def run_apalache_inductive(module, cinit, indinit, inv, init="Init", timeout=240
                "--length=%d" % length, module + ".tla"]
         try:
             p = subprocess.run(cmd, cwd=wd, stdout=subprocess.PIPE, stderr=subprocess.STDOUT, timeout=timeout, text=True,
-                               errors="replace")
+                               errors="replace", env=dict(os.environ, TMPDIR=wd))     # the launcher's mktemp litter stays in the scratch directory
         except subprocess.TimeoutExpired:
             res["detail"] = "%s: timeout after %ds" % (name, timeout)
             res["wall_s"] = round(time.time() - t0, 2)
